@@ -776,7 +776,7 @@ func VfC03_Pairs() {
 		}
 		f := m.NewFunc("f"+string(rune('1'+k)), types.Void,
 			ir.NewParam("a", vec(it)), ir.NewParam("b", vec(it)), ir.NewParam("x", vec(types.Float)), ir.NewParam("y", vec(types.Float)),
-			ir.NewParam("p", ptr(td)), ir.NewParam("q", ptr(it)))
+			ir.NewParam("p", ptr(td)), ir.NewParam("q", ptr(it)), ir.NewParam("ix", vec(types.I64)))
 		b := f.NewBlock("entry")
 		a, bb, x, y, p, q := f.Params[0], f.Params[1], f.Params[2], f.Params[3], f.Params[4], f.Params[5]
 		zero, one := constant.NewInt(types.I32, 0), constant.NewInt(types.I32, 1)
@@ -792,6 +792,8 @@ func VfC03_Pairs() {
 		al.AddrSpace = types.AddrSpace(s.as)
 		r = append(r, al)
 		r = append(r, b.NewICmp(enum.IPredEQ, p, constant.NewNull(ptr(td))))
+		r = append(r, b.NewGetElementPtr(it, q, f.Params[6]))
+		r = append(r, b.NewGetElementPtr(td, p, f.Params[6], one))
 		b.NewRet(nil)
 		fns[k], results[k] = f, r
 	}
